@@ -32,7 +32,10 @@ import (
 // incarnation are placed relative to those maxima (-3…+3, ±buffer) or absolute.
 
 type c14Item struct {
-	Kind int    `json:"k"` // 0 event gossip 1 query gossip 2 event push/pull 3 event join-flagged push/pull 4 local event 5 local query 6 join-flagged push/pull that arrives while a Join(ignoreOld) is in flight (announces event time lt, carries an event at lt-1)
+	// 0 event gossip 1 query gossip 2 event push/pull 3 event join-flagged push/pull 4 local event 5 local query
+	// 6 join-flagged push/pull that arrives while a Join(ignoreOld) is in flight (announces event time lt, carries an event at lt-1)
+	// 7 / 8 a flood of user events / queries at consecutive new times, long enough to make the snapshotter compact its file
+	Kind int    `json:"k"`
 	Mode int    `json:"m"` // 0 absolute Abs, 1 recorded maximum of its kind + Rel
 	Abs  uint64 `json:"a,omitempty"`
 	Rel  int    `json:"r,omitempty"`
@@ -46,7 +49,7 @@ type c14Case struct {
 }
 
 func genC14(t *rapid.T) c14Case {
-	c := c14Case{N: rapid.SampledFrom([]int{4, 64, 512}).Draw(t, "N")}
+	c := c14Case{N: rapid.SampledFrom([]int{1, 2, 4, 4, 64, 512}).Draw(t, "N")}
 	base := rapid.SampledFrom([]uint64{0, 0, 3, 1000, 1 << 32, 1 << 63, maxLT - 300}).Draw(t, "base")
 	np := rapid.IntRange(2, 3).Draw(t, "phases")
 	for p := 0; p < np; p++ {
@@ -63,6 +66,14 @@ func genC14(t *rapid.T) c14Case {
 				it.Rel = rapid.SampledFrom([]int{-3, -2, -1, -1, 0, 0, 0, 1, 1, 1, 2, 3, -c.N, c.N, c.N + 1}).Draw(t, "rel")
 			}
 			items = append(items, it)
+		}
+		// A middle incarnation may push the snapshot file through a compaction
+		// (a flood of one kind; what the file said about the OTHER kind has to
+		// survive it and still bind the incarnation after it).
+		if p > 0 && p < np-1 && rapid.IntRange(0, 2).Draw(t, "flood") == 0 {
+			fl := c14Item{Kind: 7 + rapid.IntRange(0, 1).Draw(t, "floodkind")}
+			at := rapid.IntRange(0, len(items)).Draw(t, "floodat")
+			items = append(items[:at], append([]c14Item{fl}, items[at:]...)...)
 		}
 		c.Phases = append(c.Phases, items)
 	}
@@ -121,6 +132,7 @@ func bodyC14(c c14Case, x *vkit.Ctx) {
 	var evMax, qMax uint64
 	hasEv, hasQ := false, false
 	ntEq, ntPlus1, oldSent, newSent, complete := false, false, 0, 0, true
+	floods, compactions, wentBack := 0, 0, false
 	var phaseMaxDelivered [2]uint64
 
 	for pi, items := range c.Phases {
@@ -150,6 +162,18 @@ func bodyC14(c c14Case, x *vkit.Ctx) {
 		}
 		defer stop()
 
+		// The restart cut-offs of the model (positive oracle): just above the
+		// newest time the snapshot held, i.e. the first time that is NOT "at or
+		// below" it; Lamport times of real messages start at 1. An ignore-old
+		// join raises the event cut-off to the event time its peer announces.
+		cutE, cutQ := uint64(1), uint64(1)
+		if hasEv {
+			cutE = evMax + min(1, ^uint64(0)-evMax) // no wrap
+		}
+		if hasQ {
+			cutQ = qMax + min(1, ^uint64(0)-qMax)
+		}
+		floodsBefore := floods
 		must := map[c14Key]bool{}
 		delivered := map[c14Key]int{}
 		bad := false
@@ -232,6 +256,7 @@ func bodyC14(c c14Case, x *vkit.Ctx) {
 				n.Delegate.MergeRemoteState(encPushPull(pp), true)
 				release <- struct{}{}
 				<-done
+				cutE = max(cutE, lt)
 				x.Label("join-ignore-old-with-lagging-peer")
 				poll(n, absorb)
 				if bad {
@@ -239,26 +264,63 @@ func bodyC14(c c14Case, x *vkit.Ctx) {
 				}
 				continue
 			}
+			if it.Kind == 7 || it.Kind == 8 {
+				// Enough lines of one kind to exceed the snapshotter's size limit
+				// (128 KiB), at consecutive times above everything seen so far. The
+				// reader keeps up and the snapshotter's backlog is kept short, so
+				// nothing is dropped on the way to the file.
+				clk := uint64(ecl)
+				line := "event-clock: "
+				if it.Kind == 8 {
+					clk, line = uint64(qcl), "query-clock: "
+				}
+				count := uint64(128*1024/(len(line)+len(strconv.FormatUint(clk, 10))+1) + 64)
+				if clk > maxLT-count-8 {
+					x.Label("flood-skipped-clock-near-top")
+					continue
+				}
+				sn := n.Serf.VerifSnapshotter()
+				for i := uint64(0); i < count && !bad; i++ {
+					if it.Kind == 7 {
+						n.Delegate.NotifyMsg(encUserEvent(clk+i, "flood", nil))
+					} else {
+						n.Delegate.NotifyMsg(encQuery(clk+i, 77, "flood", 0))
+					}
+					if i%128 == 127 {
+						poll(n, absorb)
+						spins, deadline := 0, time.Now().Add(waitCap)
+						for sn != nil && sn.VerifBacklog() > 256 && time.Now().Before(deadline) {
+							spin(&spins)
+						}
+					}
+				}
+				poll(n, absorb)
+				if bad {
+					return
+				}
+				floods++
+				continue
+			}
 			switch it.Kind {
 			case 0, 2, 3:
 				k = c14Key{false, lt, name, 0}
-				clock, cutoff = uint64(ecl), uint64(n.Serf.VerifEventMinTime())
+				clock, cutoff = uint64(ecl), cutE
 			case 1:
 				k = c14Key{true, lt, "", it.ID}
-				clock, cutoff = uint64(qcl), uint64(n.Serf.VerifQueryMinTime())
+				clock, cutoff = uint64(qcl), cutQ
 			case 4:
 				if uint64(ecl) > maxLT {
 					continue
 				}
 				lt = uint64(ecl)
 				k = c14Key{false, lt, name, 0}
-				clock, cutoff = uint64(ecl), uint64(n.Serf.VerifEventMinTime())
+				clock, cutoff = uint64(ecl), cutE
 			case 5:
 				if uint64(qcl) > maxLT {
 					continue
 				}
 				lt = uint64(qcl)
-				clock, cutoff = uint64(qcl), uint64(n.Serf.VerifQueryMinTime())
+				clock, cutoff = uint64(qcl), cutQ
 			}
 			if pi > 0 {
 				mx, has := evMax, hasEv
@@ -356,15 +418,30 @@ func bodyC14(c c14Case, x *vkit.Ctx) {
 			}
 		}
 		stop()
+		if floods > floodsBefore {
+			if fi, err := os.Stat(snap); err == nil && fi.Size() < 100*1024 {
+				compactions++
+			}
+		}
 		ev, q, he, hq, err := c14Recorded(snap)
 		if err != nil {
 			x.Inconclusive("snapshot unreadable: " + err.Error())
 			return
 		}
+		// The reference is the newest time the harness has SEEN recorded in the
+		// file before this restart. There is no leave in these histories, so on a
+		// file that only ever gains clock lines (or is compacted faithfully) that
+		// is what the file says now; a record that an earlier reading showed and
+		// this one lacks was still "recorded in the snapshot before the restart".
 		if (he && ev < evMax) || (hasEv && !he) || (hq && q < qMax) || (hasQ && !hq) {
-			x.Label("recorded-maximum-went-back")
+			wentBack = true
 		}
-		evMax, qMax, hasEv, hasQ = ev, q, he, hq
+		if he {
+			evMax, hasEv = max(evMax, ev), true
+		}
+		if hq {
+			qMax, hasQ = max(qMax, q), true
+		}
 		if (phaseMaxDelivered[0] > evMax) || (phaseMaxDelivered[1] > qMax) {
 			complete = false
 		}
@@ -381,6 +458,15 @@ func bodyC14(c c14Case, x *vkit.Ctx) {
 	}
 	if !complete {
 		x.Label("snapshot-behind-deliveries")
+	}
+	if wentBack {
+		x.Label("recorded-maximum-went-back")
+	}
+	if floods > 0 {
+		x.Label("flood")
+	}
+	if compactions > 0 {
+		x.Label("flood-forced-compaction")
 	}
 	if !hasEv {
 		x.Label("no-event-clock-recorded")
